@@ -12,7 +12,10 @@ From BB Require Import BN Brute SpaceFacts TrapFacts PercolateFacts AttractorFac
   Strict PetriNet Control Meta FilterFacts PetriNetFacts TrappistFacts DiagramStruct DiagramSem1 DiagramCache
   DiagramDepth DiagramComplete Termination ControlFacts MetaFacts Candidates StrictFacts MinExpandFacts CandidatesFacts SymbolicTest SymbolicTestFacts Signed ReductionFacts ControlFacts2 Main Blocks BlocksFacts ObsFacts OwnerFacts CandidatesTerm
   PartialOwner BlockMath BlockComplete ASeeds ASeedsFacts LogChecks SkipRule SkipRuleFacts Names NamesFacts Perm PermFacts SCC SCCFacts SCCStruct ControlFacts3 SCCTerm FilterSym Main2 StrategyFacts ControlFacts4 SkipRuleFacts2 SCCComplete SCCAttr BlockComplete2 ControlFacts5 Iso SkipSem ControlFacts6.
-From BB Require Import PyLib PySrcBase PySrcKey PySrcKeyFacts PyLibCore PySrcCore PySrcCoreFacts PyLibCore2 PySrcCore2 PySrcCore2Facts.
+From BB Require Import PyLib PySrcBase PySrcKey PySrcKeyFacts PyLibCore PySrcCore PySrcCoreFacts PyLibCore2 PySrcCore2 PySrcCore2Facts PySrcInitFacts.
+
+Theorem C20_source_init : forall (fuel : nat) (N : net) (cfg : config) (pnc : nat -> bool), 0 < fuel -> exists w : pyst, py_init fuel N cfg pnc = CNext w Datatypes.tt /\ p_sd w = init N /\ CoreInv N w.
+Proof. exact py_init_spec. Qed.
 
 (* translator tie: SuccessionDiagram.depth as generated from the source = Diagram.depth *)
 Theorem C20_source_depth : forall (fuel : nat) (N : net) (cfg : config) (pnc : nat -> bool) (w : pyst), py_depth fuel N cfg pnc w = CRet w (depth (p_sd w)).
@@ -86,6 +89,7 @@ Proof. exact is_isomorphic_b_spec. Qed.
 Theorem C20_is_isomorphic_symmetric : forall a b : sd, is_isomorphic_b a b = is_isomorphic_b b a.
 Proof. exact is_isomorphic_b_sym. Qed.
 
+Print Assumptions C20_source_init.
 Print Assumptions C20_source_depth.
 Print Assumptions C20_source_ensure_node.
 Print Assumptions C20_source_len.
